@@ -137,6 +137,15 @@ def prop(case):
         if O.observe(g) != before or str(g) != btext:
             raise Violation("negative-changed", "%s\nrefused call changed the graph:\n%s" % (ctx, str(g)))
         return {"nt": False, "factor": factor}
+    if distribute not in (None, "off", "auto", "equal", "L", "R"):
+        # not one of the documented policies: a call that is refused leaves the graph as it was
+        if raised is None:
+            return {"nt": False, "unknown_policy": "accepted"}
+        if not isinstance(raised, GfapyError):
+            raise Violation("raised", "%s\nraised %s: %s" % (ctx, type(raised).__name__, str(raised)[:300]), "foreign/%s/policy" % type(raised).__name__)
+        if O.observe(g) != before or str(g) != btext:
+            raise Violation("refused-changed", "%s\nthe call was refused (%s) but the graph changed:\n%s" % (ctx, type(raised).__name__, str(g)), "policy")
+        return {"nt": False, "unknown_policy": "refused"}
     if raised is not None:
         cls = "gfapy" if isinstance(raised, GfapyError) else "foreign"
         raise Violation("raised", "%s\nraised %s: %s" % (ctx, type(raised).__name__, str(raised)[:300]),
@@ -402,7 +411,8 @@ def st_case(draw):
                 if l[0] == "S" and l[1][0] == target and not any(t[0] == origin.get("origin_tag", "or") for t in l[2]):
                     l[2].append([origin.get("origin_tag", "or"), "Z", "Q"])
     return {"doc": doc, "segment": target, "factor": factor, "origin": origin, "incremental": incremental,
-            "distribute": gen.choice(r, [None, None, "off", "auto", "equal", "L", "R"]), "copy_names": names,
+            "distribute": gen.choice(r, [None, None, "off", "auto", "equal", "L", "R"]) if not gen.fair(r, 0.04) else gen.choice(r, ["zzz", "l", "both"]),
+            "copy_names": names,
             "by_instance": gen.chance(r, 0.3), "vlevel": gen.choice(r, [1, 1, 2, 3])}
 
 
@@ -419,9 +429,15 @@ def prop2(case):
     text = "\n".join(lines)
     recs = [G.Rec.from_plain(l, "gfa2") for l in doc["lines"]]
     try:
-        g = gfapy.Gfa(lines, version="gfa2", vlevel=case.get("vlevel", 1))
+        if case.get("incremental"):
+            g = gfapy.Gfa(version="gfa2", vlevel=case.get("vlevel", 1))
+            for l_ in lines:
+                g.add_line(l_)
+        else:
+            g = gfapy.Gfa(lines, version="gfa2", vlevel=case.get("vlevel", 1))
     except Exception as e:
         raise Violation("load", "valid graph not loaded: %s: %s\n%s" % (type(e).__name__, str(e)[:300], text), type(e).__name__)
+    pending = M.ModelDoc("gfa2", recs).undefined_mentions()
     ctx = "multiply(%r, %d) [GFA2]\n%s" % (target, factor, text)
     before = O.observe(g)
     try:
@@ -457,6 +473,9 @@ def prop2(case):
     new = sorted(set(segs) - set(src))
     if len(new) != factor - 1:
         raise Violation("n-copies", "%s\nexpected %d copies, got %s" % (ctx, factor - 1, new))
+    if set(new) & pending:
+        raise Violation("copy-name-not-fresh", "%s\nthe copy got the identifier %s, which another line already mentions (a line that is still to be defined)" % (
+            ctx, sorted(set(new) & pending)))
     copies = [target] + new
     t = src[target]
     for c in copies:
@@ -534,8 +553,15 @@ def st_case2(draw):
         lines.append(["F", [names[1], "read+", "0", "2", "0", "2", "*"], []])
     if gen.chance(r, 0.3) and len(names) > 1:
         lines.append(["U", ["u1", names[1]], []])
+    incremental = False
+    if gen.fair(r, 0.15):
+        # a group that mentions an identifier nobody defines yet - the one the first automatic copy name would be
+        lines.append([gen.choice(r, "UO"), ["uq", "%s*2%s" % (target, "")], []])
+        if lines[-1][0] == "O":
+            lines[-1][1][1] += "+"
+        incremental = True
     return {"doc": {"version": "gfa2", "lines": lines}, "segment": target, "factor": gen.choice(r, [-1, 0, 1, 2, 2, 3, 4]),
-            "vlevel": gen.choice(r, [1, 1, 2, 3])}
+            "vlevel": gen.choice(r, [1, 1, 2, 3]), "incremental": incremental}
 
 
 # ---------------------------------------------------------------- apply_copy_numbers
